@@ -4,6 +4,8 @@ import SnaxVerif.Lemmas.PackBits
 import SnaxVerif.Lemmas.AffineTransform
 import SnaxVerif.Lemmas.AttrSyntax
 import SnaxVerif.Lemmas.AccessCanon
+import SnaxVerif.Lemmas.AffineRoundTrip
+import SnaxVerif.Lemmas.AffineCanonExtra
 /-!
 # C19 — canonical forms and alternative representations denote the same object
 
@@ -77,6 +79,15 @@ example : (AExpr.bin .mod (.bin .fdiv (.dim 0) (.const 0)) (.const 1)).eval (fun
     canon 5 (.bin .mod (.bin .fdiv (.dim 0) (.const 0)) (.const 1)) = some (.const 0) := by
   decide
 
+
+/-- The guard that fix F18 put in front of the operand swap of `canonicalize_addition` ("xdsl already
+simplified the sum: return new_expr") can never fire: after the constant has been moved to the right
+and the swap test holds, neither operand is a constant, so the smart `+` returns a plain `Add`.
+(No generated case reaches that line; this is why.) -/
+theorem canonAdd_swap_guard_dead (l r : AExpr) (h : ¬ (l.isConst = true ∧ r.isConst = true))
+    (hre : addReorder (constRight l r).1 (constRight l r).2 = true) :
+    smartAdd (constRight l r).2 (constRight l r).1 = .bin .add (constRight l r).2 (constRight l r).1 :=
+  addOrder_swap_is_add _ _ (constRight_fst_nonconst l r h) hre
 
 /-! ## (1) `StridePattern.canonicalize` -/
 
@@ -332,6 +343,76 @@ example : AT.fromMap 2 [.bin .add (.bin .mul (.const 3) (.bin .add (.dim 1) (.co
 example : AT.mulConstSide (.bin .add (.bin .mul (.const 3) (.bin .add (.dim 1) (.const 2))) (.dim 0)) = true := by
   decide
 
+/-! ### (3, deepening) round trip, shapes, batch `eval`, `__eq__` -/
+
+open AT in
+/-- `from_affine_map(to_affine_map(t)) = t` for every well-formed transform (any shape, any entries,
+zero coefficients included). -/
+theorem fromMap_toMap (t : Transform) (hwf : t.wf = true) : fromMap t.nd t.toMap = .ok t :=
+  fromMap_toMap' t hwf
+
+open AT in
+/-- `from_affine_map` and `compose` produce well-formed transforms … -/
+theorem fromMap_wf (n : Nat) (rs : List AExpr) (t : Transform) (h : fromMap n rs = .ok t) :
+    t.wf = true ∧ t.nd = n ∧ t.b.length = rs.length := by
+  obtain ⟨_, h2, h3⟩ := fromMap_checks n rs t h
+  refine ⟨h3, h2, ?_⟩
+  unfold fromMap at h
+  split at h
+  · cases h
+  · split at h
+    · cases h
+    · injection h with h; subst h; simp
+
+open AT in
+theorem compose_wf (s o c : Transform) (hs : s.wf = true) (hc : s.compose o = .ok c) : c.wf = true :=
+  compose_wf' s o c hs hc
+
+open AT in
+/-- … so the shape hypotheses of `compose_eval` are discharged by well-formedness alone. -/
+theorem compose_eval_wf (s o c : Transform) (hs : s.wf = true) (ho : o.wf = true)
+    (hc : s.compose o = .ok c) (x : List Int) : c.eval x = (o.eval x).bind s.eval := by
+  obtain ⟨hsl, _⟩ := (wf_iff s).mp hs
+  obtain ⟨hol, hor⟩ := (wf_iff o).mp ho
+  exact compose_eval s o c hc hor hsl hol x
+
+open AT in
+/-- batch `eval` (2-D `x`) is `eval` on every row -/
+theorem evalBatch_eq (t : Transform) (xs : List (List Int)) (h : ∀ x ∈ xs, x.length = t.nd) :
+    t.evalBatch xs t.nd = xs.mapM t.eval :=
+  evalBatch_mapM t xs h
+
+/-- The full statement for `AffineTransform.__eq__`: it never raises and two transforms that compare
+equal are the same. False on the unchanged tree (finding DC19b: numpy broadcasting). -/
+def affineEq_statement : Prop :=
+  ∀ s o : AT.Transform, s.wf = true → o.wf = true →
+    (∃ r, s.eqNp o = .ok r) ∧ (s.eqNp o = .ok true → s = o)
+
+open AT in
+/-- clause `sameShape_clause`: equal numbers of rows and columns. -/
+theorem affineEq_sameShape_partial (s o : Transform) (hs : s.wf = true) (ho : o.wf = true)
+    (sameShape_clause : s.nd = o.nd ∧ s.A.length = o.A.length) :
+    s.eqNp o = .ok (decide (s = o)) :=
+  eqNp_sameShape s o hs ho sameShape_clause.1 sameShape_clause.2
+
+/-- DC19b: a 1x2 and a 2x2 transform with equal rows compare equal. -/
+theorem affineEq_broadcast_fails : ¬ affineEq_statement := by
+  intro h
+  have := (h ⟨2, [[1, 2]], [0]⟩ ⟨2, [[1, 2], [1, 2]], [0, 0]⟩ (by decide) (by decide)).2 (by rfl)
+  revert this
+  decide
+
+/-- DC19b, second symptom: incompatible shapes raise instead of comparing unequal. -/
+example : (AT.Transform.mk 3 [[1, 2, 3]] [0]).eqNp (AT.Transform.mk 2 [[1, 2]] [0]) = .error .valueError := by rfl
+
+open AT in
+/-- with fix FC19b (`np.array_equal`) `__eq__` decides equality of transforms, hence of their values -/
+theorem affineEqFixed_iff (s o : Transform) : s.eqFixed o = true ↔ s = o := eqFixed_iff s o
+
+example : AT.fromMap 2 (AT.Transform.mk 2 [[1, 0], [-2, 3]] [5, 0]).toMap = .ok (AT.Transform.mk 2 [[1, 0], [-2, 3]] [5, 0]) := by
+  rfl
+example : (AT.Transform.mk 2 [[1, 2]] [5]).evalBatch [[1, 1], [2, 0]] 2 = .ok [[8], [7]] := by rfl
+
 /-! ## (4) attribute print -> parse round trips (token level) -/
 
 /-- `StridePattern`: parsing what was printed gives the attribute back, for all integer arrays (any
@@ -378,6 +459,22 @@ example : Syntax.printSP ⟨[2, -3], [0], []⟩
     = [.lt, .ident "ub", .eq, .lsq, .nat 2, .comma, .minus, .nat 3, .rsq, .comma, .ident "ts", .eq, .lsq, .nat 0,
        .rsq, .comma, .ident "ss", .eq, .lsq, .rsq, .gt] := by decide
 
+/-- With fix FC19-D16 (`system=xdma, ` printed unless the system type is the default) the round trip
+holds for EVERY configuration: the full statement, no clause. -/
+theorem streamerCfgFixed_roundtrip (c : Syntax.Config) (nonempty : c.streamers ≠ []) (rest : List Syntax.Tok) :
+    Syntax.parseCfgFixed (Syntax.printCfgFixed c ++ rest) = some (c, rest) :=
+  Syntax.parseCfgFixed_print c nonempty rest
+
+/-- … and regular configurations print exactly as before the fix. -/
+theorem streamerCfgFixed_regular_unchanged (c : Syntax.Config) (h : c.sys = .regular) :
+    Syntax.printCfgFixed c = Syntax.printCfg c := by
+  unfold Syntax.printCfgFixed Syntax.printCfg
+  rw [h]; rfl
+
+example : Syntax.printCfgFixed ⟨[⟨.reader, [.normal], [8], [.memset]⟩], .xdma⟩
+    = [.lt, .ident "system", .eq, .ident "xdma", .comma, .ident "r", .lsq, .ident "opts", .eq, .ident "memset_ext",
+       .comma, .ident "temp", .eq, .ident "n", .comma, .ident "spat", .eq, .nat 8, .rsq, .gt] := by decide
+
 /-! ## (5) `AccessPattern.canonicalize` / `inner_dims` -/
 
 open AP AT in
@@ -386,55 +483,20 @@ rank, any mixture of `None`, zero, unit, negative and larger bounds) the canonic
 the point with the removed coordinates deleted, is again inside its box and evaluates identically. -/
 theorem accessCanon_eval (p : Pattern) (h : p.valid) (x : List Int) (hx : InBox p.bounds x) :
     InBox p.canonicalize.bounds (select (p.bounds.map keep) x) ∧
-    p.canonicalize.t.eval (select (p.bounds.map keep) x) = p.t.eval x := by
-  obtain ⟨hn, hrows, _⟩ := h
-  have hxl := InBox.length _ _ hx
-  refine ⟨inBox_select _ _ hx, ?_⟩
-  unfold Transform.eval Pattern.canonicalize
-  simp only [select_length p.bounds x hxl, ne_eq, not_true_eq_false, if_false]
-  rw [if_neg (by rw [hxl, hn]; exact fun h => h rfl)]
-  congr 2
-  unfold matVec
-  rw [List.map_map]
-  apply List.map_congr_left
-  intro r hr
-  exact dot_select p.bounds r x hx (by rw [hrows r hr, hn])
+    p.canonicalize.t.eval (select (p.bounds.map keep) x) = p.t.eval x :=
+  canonWith_eval keep keep_dropsZero p h x hx
 
 open AP AT in
 /-- `type(self)(bounds, pattern)` at the end of `canonicalize` never raises, and the result keeps the
 class invariant. -/
 theorem accessCanon_valid (p : Pattern) (h : p.valid) (hc : construct p.cls p.bounds p.t = .ok p) :
     p.canonicalize.valid ∧
-    construct p.cls p.canonicalize.bounds p.canonicalize.t = .ok p.canonicalize := by
-  obtain ⟨hn, hrows, hb⟩ := h
-  refine ⟨⟨rfl, ?_, by simpa [Pattern.canonicalize] using hb⟩, ?_⟩
-  · intro r hr
-    simp only [Pattern.canonicalize, List.mem_map] at hr ⊢
-    obtain ⟨r0, hr0, rfl⟩ := hr
-    exact select_length p.bounds r0 (by rw [hrows r0 hr0, hn])
-  · unfold construct at hc ⊢
-    by_cases hs : p.cls = .schedule
-    · simp only [hs, if_true] at hc ⊢
-      cases hsc : schedCheck p.bounds with
-      | error e => simp [hsc] at hc
-      | ok u =>
-        have := AP.schedCheck_filter p.bounds hsc
-        simp only [Pattern.canonicalize, this, ne_eq, not_true_eq_false, if_false, hs]
-    · simp only [hs, if_false, Pattern.canonicalize, ne_eq, not_true_eq_false]
+    construct p.cls p.canonicalize.bounds p.canonicalize.t = .ok p.canonicalize :=
+  canonWith_valid keep p h hc
 
 open AP AT in
-theorem accessCanon_idem (p : Pattern) (h : p.valid) : p.canonicalize.canonicalize = p.canonicalize := by
-  obtain ⟨hn, hrows, _⟩ := h
-  have hf : (p.bounds.filter keep).filter keep = p.bounds.filter keep := by
-    rw [List.filter_filter]; simp
-  unfold Pattern.canonicalize
-  simp only [hf, List.map_map]
-  congr 2
-  apply List.map_congr_left
-  intro r hr
-  simp only [Function.comp]
-  exact select_all_true (p.bounds.filter keep) _ (keep_filter p.bounds)
-    (select_length p.bounds r (by rw [hrows r hr, hn]))
+theorem accessCanon_idem (p : Pattern) (h : p.valid) : p.canonicalize.canonicalize = p.canonicalize :=
+  canonWith_idem keep p h
 
 /-- The full statement "the canonical pattern denotes the same accesses": every point of the original
 box maps to a point of the canonical box with the same value AND every point of the canonical box comes
@@ -452,14 +514,8 @@ theorem accessCanon_onto_partial (p : Pattern) (h : p.valid) (positive_clause : 
     (y : List Int) (hy : InBox p.canonicalize.bounds y) :
     InBox p.bounds (embed (p.bounds.map keep) y) ∧
     select (p.bounds.map keep) (embed (p.bounds.map keep) y) = y ∧
-    p.t.eval (embed (p.bounds.map keep) y) = p.canonicalize.t.eval y := by
-  have hyl := InBox.length _ _ hy
-  have hin := inBox_embed p.bounds y positive_clause hy
-  have hsel := select_embed p.bounds y hyl
-  refine ⟨hin, hsel, ?_⟩
-  have := (accessCanon_eval p h _ hin).2
-  rw [hsel] at this
-  exact this.symm
+    p.t.eval (embed (p.bounds.map keep) y) = p.canonicalize.t.eval y :=
+  canonWith_onto keep keep_dropsZero p h (droppedPositiveBy_of keep p.bounds positive_clause) y hy
 
 /-- DC19a: a dimension with static bound 0 is removed like a unit dimension; the empty iteration space
 `(0, 4)` becomes the 4-point space `(4,)`. -/
@@ -468,7 +524,7 @@ theorem accessCanon_zero_bound_fails : ¬ accessCanon_statement := by
   have hv : (AP.Pattern.mk .access [some 0, some 4] ⟨2, [[1, 2]], [0]⟩).valid := by
     refine ⟨rfl, ?_, rfl⟩
     intro r hr; simp at hr; subst hr; rfl
-  obtain ⟨x, hx, _⟩ := (h _ hv).2 [0] (by simp [AP.Pattern.canonicalize, AP.keep, AP.InBox])
+  obtain ⟨x, hx, _⟩ := (h _ hv).2 [0] (by simp [AP.Pattern.canonicalize, AP.Pattern.canonicalizeWith, AP.keep, AP.InBox])
   match x, hx with
   | x0 :: _ :: [], hx =>
     simp only [AP.InBox] at hx
@@ -521,5 +577,65 @@ example : (AP.Pattern.mk .schedule [some 2, some 1, some 8] ⟨3, [[1, 2, 3]], [
 example : AP.construct .schedule [some 2, none] ⟨2, [], []⟩ = .error .typeError ∧
     AP.construct .schedule [some 0, none] ⟨2, [], []⟩ = .error .valueError ∧
     AP.construct .access [some 0] ⟨2, [], []⟩ = .error .valueError := ⟨rfl, rfl, rfl⟩
+
+/-! ### (5, deepening) fix FC19a: `bound is None or bound != 1` -/
+
+/-- the full statement, for the fixed `canonicalize` -/
+def accessCanonFixed_statement : Prop :=
+  ∀ p : AP.Pattern, p.valid →
+    (∀ x, AP.InBox p.bounds x → AP.InBox p.canonicalizeFixed.bounds (AP.select (p.bounds.map AP.keepFixed) x) ∧
+      p.canonicalizeFixed.t.eval (AP.select (p.bounds.map AP.keepFixed) x) = p.t.eval x) ∧
+    (∀ y, AP.InBox p.canonicalizeFixed.bounds y →
+      ∃ x, AP.InBox p.bounds x ∧ AP.select (p.bounds.map AP.keepFixed) x = y)
+
+open AP in
+/-- With fix FC19a the full statement holds: the boxes are in bijection and the values agree, for all
+bounds (dynamic, zero, negative, unit, larger) — no clause. -/
+theorem accessCanonFixed_holds : accessCanonFixed_statement := by
+  intro p h
+  refine ⟨fun x hx => canonWith_eval keepFixed keepFixed_dropsZero p h x hx, fun y hy => ?_⟩
+  obtain ⟨h1, h2, _⟩ := canonWith_onto keepFixed keepFixed_dropsZero p h (droppedPositiveBy_keepFixed _) y hy
+  exact ⟨_, h1, h2⟩
+
+open AP in
+theorem accessCanonFixed_idem (p : Pattern) (h : p.valid) :
+    p.canonicalizeFixed.canonicalizeFixed = p.canonicalizeFixed :=
+  canonWith_idem keepFixed p h
+
+open AP in
+theorem accessCanonFixed_valid (p : Pattern) (h : p.valid) (hc : construct p.cls p.bounds p.t = .ok p) :
+    p.canonicalizeFixed.valid ∧
+    construct p.cls p.canonicalizeFixed.bounds p.canonicalizeFixed.t = .ok p.canonicalizeFixed :=
+  canonWith_valid keepFixed p h hc
+
+open AP in
+/-- On patterns without a static bound <= 0 (every SchedulePattern) the fix changes nothing. -/
+theorem accessCanonFixed_same_on_positive (p : Pattern) (positive_clause : DroppedPositive p.bounds) :
+    p.canonicalizeFixed = p.canonicalize := by
+  have hk : ∀ b ∈ p.bounds, keepFixed b = keep b := by
+    intro b hb
+    cases b with
+    | none => rfl
+    | some n =>
+      have := positive_clause _ hb n rfl
+      simp only [keepFixed, keep]
+      by_cases h1 : n = 1
+      · subst h1; decide
+      · have h2 : n > 1 := by omega
+        simp [h1, h2]
+  unfold Pattern.canonicalizeFixed Pattern.canonicalize Pattern.canonicalizeWith
+  have hf : p.bounds.filter keepFixed = p.bounds.filter keep := List.filter_congr hk
+  have hm : p.bounds.map keepFixed = p.bounds.map keep := List.map_congr_left hk
+  simp only [hf, hm]
+
+example : (AP.Pattern.mk .access [some 0, some 4] ⟨2, [[1, 2]], [0]⟩).canonicalizeFixed
+    = AP.Pattern.mk .access [some 0, some 4] ⟨2, [[1, 2]], [0]⟩ := by decide
+
+/-- constructing from an `AffineMap`: the map is converted first (its errors surface), then the lengths
+are compared. -/
+example : AP.constructFromMap .template [none, some 4] 2 [.bin .add (.bin .mul (.dim 0) (.const 16)) (.dim 1)]
+    = .ok (AP.Pattern.mk .template [none, some 4] ⟨2, [[16, 1]], [0]⟩) := by rfl
+example : AP.constructFromMap .access [some 4] 1 [.bin .mod (.dim 0) (.const 2)] = .error .valueError ∧
+    AP.constructFromMap .access [some 4] 1 [.dim 3] = .error .indexError := ⟨rfl, rfl⟩
 
 end SnaxVerif.C19
